@@ -30,7 +30,8 @@ type WeightedMerkleTrie struct {
 	oldRoot     hashNode
 	deleted     map[[32]byte]bool
 	tempDeleted [][]byte
-	created     [][]byte
+	created     [][]byte // nodes written by the last commit that did not exist in storage before (removed on rollback)
+	written     [][]byte // all nodes written by the last commit
 	sync.Mutex
 }
 
@@ -495,6 +496,7 @@ func (t *WeightedMerkleTrie) RollbackTrie(node Node) {
 		batcher.Commit(false) //nolint:errcheck
 	}
 	t.created = nil
+	t.tempDeleted = nil // like Rollback: the nodes superseded by the rolled-back changes are live again
 	clear(t.deleted)
 }
 
@@ -615,6 +617,7 @@ func commonPrefix(a, b []byte) int {
 
 func (t *WeightedMerkleTrie) collectDeleteAndCreated(deleteChan, createdChan chan []byte, wg *sync.WaitGroup) {
 	t.created = nil
+	t.written = nil
 	wg.Add(2)
 	go func() {
 		for hash := range deleteChan {
@@ -630,6 +633,12 @@ func (t *WeightedMerkleTrie) collectDeleteAndCreated(deleteChan, createdChan cha
 			var k [32]byte
 			copy(k[:], hash)
 			delete(t.deleted, k)
+			t.written = append(t.written, hash)
+			// a node that is in storage already (re-written unchanged, or deleted and added again with identical
+			// content) belongs to the state before this commit: a rollback must not remove it
+			if _, err := t.db.Get(hash); err == nil {
+				continue
+			}
 			t.created = append(t.created, hash)
 		}
 		wg.Done()
@@ -639,11 +648,11 @@ func (t *WeightedMerkleTrie) collectDeleteAndCreated(deleteChan, createdChan cha
 // keepCreated removes the hashes written by the last commit from the nodes collected for deletion: a node that
 // was superseded and then created again with identical content in the same commit window is live
 func (t *WeightedMerkleTrie) keepCreated() {
-	if len(t.created) == 0 || len(t.tempDeleted) == 0 {
+	if len(t.written) == 0 || len(t.tempDeleted) == 0 {
 		return
 	}
-	live := make(map[string]struct{}, len(t.created))
-	for _, h := range t.created {
+	live := make(map[string]struct{}, len(t.written))
+	for _, h := range t.written {
 		live[string(h)] = struct{}{}
 	}
 	kept := t.tempDeleted[:0]
